@@ -43,6 +43,8 @@ def gen_cases(rng, tier):
       model["api_variant"] = rng.choice([None, None, "tuple", "int_cutoff", "kwargs", "realfile", "amend_after_write"])
       if model["api_variant"] == "int_cutoff":
         model["tab"]["cutoff"] = float(rng.randint(1, 20))
+      if i % 5 in (1, 2, 3):
+        model["api_results"] = [None, "numpy0d", "numpy0d_int", "numpy0d_cached"][i % 5]   # functions returning 0-d numpy arrays (fresh / integer-typed / memoised)
     cases.append({"route": route, "model": model, "style": rng.randrange(1 << 30)})
   # energy exactly 0 at a grid row where the slope is not (root on the grid)
   for i in range(20 if tier == "quick" else 120):
@@ -61,6 +63,13 @@ def gen_cases(rng, tier):
     route = ["potable", "cli", "api_legacy", "api_class"][(i % 7 + i // 7) % 4]   # every variant meets every route (7 = -1 mod 4: i + i//7 would not)
     model, k = spec.exact_boundary_model(rng, "LAMMPS", v, shared=route.startswith("api"))
     cases.append({"route": route, "model": model, "style": rng.randrange(1 << 30), "exact_boundary": v, "root_on_grid": k})
+  # decimal grids: a discontinuity 8 ulps to either side of an upper row, just above the cutoff, table data ending AT the
+  # cutoff - row k (the last row for the latter two) is on a definite side whatever rounding of k*dr the writer uses
+  for i in range(16 if tier == "quick" else 80):
+    v = spec.NEAR_ROW_VARIANTS[i % 4]
+    route = ["api_class", "potable", "api_legacy", "cli"][(i // 4) % 4]
+    model, k = spec.near_row_boundary_model(rng, "LAMMPS", v, i // 4 + (0 if i % 8 < 4 else 3))
+    cases.append({"route": route, "model": model, "style": rng.randrange(1 << 30), "near_row_boundary": v, "root_on_grid": k, "strict_rows": [k]})
   # plain Python callables whose first rows are whole numbers returned as int (a capped core: 100 below r_c), floats later
   for i in range(6 if tier == "quick" else 40):
     nr = rng.choice([5, 9, 21, 41])
@@ -108,6 +117,8 @@ def run_case(case, ctx):
   rows = oracle.sample_rows(N, rng, 24 if nr <= 400 else 40)
   if case.get("exact_boundary"):
     ctx.cls("exact_boundary_on_row:" + case["exact_boundary"])
+  if case.get("near_row_boundary"):
+    ctx.cls("near_row_boundary:" + case["near_row_boundary"])
   if case.get("root_on_grid"):
     rows = sorted(set(rows + [case["root_on_grid"] - 1]))
     ctx.cls("root_on_grid")
@@ -127,6 +138,7 @@ def run_case(case, ctx):
   # --- run the real code
   log = monitors.EventLog()
   pots = None
+  del routes.NUMPY0D_CACHED[:]
   try:
     if route == "cli":
       text_in = emit.model_text(model, emit.Style(rng))
@@ -171,6 +183,10 @@ def run_case(case, ctx):
     ctx.violation("exception", "valid model failed: %s: %s" % (et, e), what="exception", exc=et, func=fn)
     return
   ctx.count("executions")
+  if str(model.get("api_results")).startswith("numpy0d"):
+    ctx.cls("api_results:" + model["api_results"])
+    if not routes.numpy0d_mutations(ctx):
+      return
 
   # --- consumer-side read
   try:
@@ -208,7 +224,7 @@ def run_case(case, ctx):
       r = R.F(dr * (i + 1))
       row = sec["rows"][i]
       where = "block %d (%s-%s) row %d r=%s route=%s" % (idx, a, b, i + 1, row[1], route)
-      oracle.check_value(ctx, "energy", row[2], o, r, where=where, fmt="lammps", strict=bool(case.get("exact_boundary")))
+      oracle.check_value(ctx, "energy", row[2], o, r, where=where, fmt="lammps", strict=bool(case.get("exact_boundary")) or (i + 1) in case.get("strict_rows", ()))
       if oracle.on_break(r, o.breaks) or ((not o.analytic) and oracle.near_break(r, o.breaks)):
         ctx.count("force_rows_skipped_at_breakpoint")
         continue
